@@ -208,6 +208,7 @@ import JdProofs.NativeEndToEnd
 import JdProofs.NativeEndToEndSet
 import JdProofs.NativeEndToEndKeysB
 import JdProofs.NativeEndToEndKeys
+import JdProps.C01Void
 
 set_option autoImplicit false
 
